@@ -22,6 +22,8 @@ pub enum Alpha {
 pub struct Spec {
     pub cfg: Cfg,
     pub alpha: Alpha,
+    /// alphabet offered in states that already carry at least one deviation
+    pub alpha_deep: Alpha,
     pub bound: usize,
     /// horizon of default steps per orbit, per deviation level
     pub horizon: [usize; 4],
@@ -33,6 +35,9 @@ pub struct Spec {
     pub sample_every: usize,
     /// operations applied (but not followed) in the states of the last layer
     pub final_layer: Vec<Op>,
+    /// apply `final_layer` only in the first state of each last-layer orbit (the state right
+    /// after the deviation, where changes are still pending), not along its whole P-closure
+    pub final_layer_first_only: bool,
 }
 
 #[derive(Clone, Debug, Default)]
@@ -303,10 +308,10 @@ pub fn explore_sys(spec: &Spec, make: Factory, journal: Journal) -> Result<Outco
                 out.state_cap_hit = true;
                 break 'outer;
             }
-            if nd < spec.bound || !spec.final_layer.is_empty() {
+            if nd < spec.bound || (!spec.final_layer.is_empty() && (steps == 0 || !spec.final_layer_first_only)) {
                 let g = live.getters();
                 let devs = if nd < spec.bound {
-                    deviations(cfg, spec.alpha, &g, &st)
+                    deviations(cfg, if nd == 0 { spec.alpha } else { spec.alpha_deep }, &g, &st)
                 } else {
                     spec.final_layer.clone()
                 };
